@@ -237,6 +237,7 @@ Theorem move_exact : forall s k uid set dest s' r, state_ok s -> wire_set set = 
 Proof.
   intros s k uid set dest s' r Hok Hw H Hr. unfold step in H.
   destruct (in_selected_inv _ _ _ _ _ H Hr) as (i & mb & Hsel & Hmb & Hk). clear H. cbv beta in Hk.
+  destruct (ro_of s k) eqn:Ero; [failed_branch Hk Hr|].
   destruct (lookup dest (st_names s)) as [j|] eqn:El; [|failed_branch Hk Hr].
   destruct (Nat.eqb j i) eqn:Eji; [failed_branch Hk Hr|]. apply Nat.eqb_neq in Eji.
   destruct (nth_error (st_heap s) j) as [dmb|] eqn:Ej; [|failed_branch Hk Hr].
@@ -344,6 +345,7 @@ Theorem store_exact : forall s k uid set op silent fl s' r, state_ok s -> wire_s
 Proof.
   intros s k uid set op silent fl s' r Hok Hw H Hr. unfold step in H.
   destruct (in_selected_inv _ _ _ _ _ H Hr) as (i & mb & Hsel & Hmb & Hk). clear H. cbv beta zeta in Hk.
+  destruct (ro_of s k) eqn:Ero; [failed_branch Hk Hr|].
   inversion Hk; subst s' r. clear Hk Hr.
   pose proof (state_ok_mb _ _ _ Hok Hmb) as Hmok.
   pose proof (map_addressed_uids uid set mb (store_flags op fl) (store_flags_uid op fl)) as Hu.
@@ -373,14 +375,16 @@ Definition spec_expunged (uids : option nset) (mb : mailbox) (m : mmsg) : bool :
 
 Theorem expunge_exact : forall s k uids s' r, state_ok s ->
   match uids with Some set => wire_set set = true | None => True end ->
+  ro_of s k = false ->
   step s (k, CExpunge uids) = Some (s', r) -> r_class r = 0 ->
   exists i mb, sel_of s k = Some i /\ nth_error (st_heap s) i = Some mb /\
     (fits32 mb ->
      nth_error (st_heap s') i = Some (set_msgs (filter (fun m => negb (spec_expunged uids mb m)) (mb_msgs mb)) mb)) /\
     others_unchanged s s' [i] /\ st_names s' = st_names s /\ st_sel s' = st_sel s.
 Proof.
-  intros s k uids s' r Hok Hw H Hr. unfold step in H.
+  intros s k uids s' r Hok Hw Hro H Hr. unfold step in H.
   destruct (in_selected_inv _ _ _ _ _ H Hr) as (i & mb & Hsel & Hmb & Hk). clear H. cbv beta in Hk.
+  rewrite Hro in Hk.
   inversion Hk; subst s' r. clear Hk Hr.
   pose proof (state_ok_mb _ _ _ Hok Hmb) as Hmok.
   exists i, mb. split; [exact Hsel|]. split; [exact Hmb|]. split.
@@ -393,13 +397,14 @@ Proof.
   - split; [apply upd_mb_others|]. auto.
 Qed.
 
-Theorem close_exact : forall s k s' r, state_ok s -> step s (k, CClose) = Some (s', r) -> r_class r = 0 ->
+Theorem close_exact : forall s k s' r, state_ok s -> ro_of s k = false -> step s (k, CClose) = Some (s', r) -> r_class r = 0 ->
   exists i mb, sel_of s k = Some i /\ nth_error (st_heap s) i = Some mb /\
     nth_error (st_heap s') i = Some (set_msgs (filter (fun m => negb (msg_has m (s2b "\Deleted"))) (mb_msgs mb)) mb) /\
     sel_of s' k = None /\ others_unchanged s s' [i] /\ st_names s' = st_names s.
 Proof.
-  intros s k s' r Hok H Hr. unfold step in H.
+  intros s k s' r Hok Hro H Hr. unfold step in H.
   destruct (in_selected_inv _ _ _ _ _ H Hr) as (i & mb & Hsel & Hmb & Hk). clear H. cbv beta in Hk.
+  rewrite Hro in Hk.
   inversion Hk; subst s' r. clear Hk Hr.
   exists i, mb. split; [exact Hsel|]. split; [exact Hmb|]. split.
   - unfold set_sel, with_sel. cbn [st_heap]. rewrite (upd_mb_same s i _ mb Hmb). reflexivity.
@@ -431,12 +436,12 @@ Qed.
 
 (* one response per addressed message, in mailbox order, carrying its sequence number, UID and
    the requested items; the only state change is \Seen on the addressed messages when a section
-   was requested without PEEK *)
+   was requested without PEEK and the mailbox was not opened read-only (EXAMINE) *)
 Theorem fetch_exact : forall s k uid set o s' r, state_ok s -> wire_set set = true ->
   step s (k, CFetch uid set o) = Some (s', r) -> r_class r = 0 ->
   exists i mb mb', sel_of s k = Some i /\ nth_error (st_heap s) i = Some mb /\
     nth_error (st_heap s') i = Some mb' /\
-    let seen := existsb (fun p => negb (sc_peek (fst p))) (fo_sections o) in
+    let seen := negb (ro_of s k) && existsb (fun p => negb (sc_peek (fst p))) (fo_sections o) in
     (fits32 mb ->
      mb' = set_msgs (map (fun sm => if spec_addressed uid set mb sm && seen then mark_seen (snd sm) else snd sm)
                          (numbered mb)) mb /\
@@ -447,7 +452,7 @@ Theorem fetch_exact : forall s k uid set o s' r, state_ok s -> wire_set set = tr
 Proof.
   intros s k uid set o s' r Hok Hw H Hr. unfold step in H.
   destruct (in_selected_inv _ _ _ _ _ H Hr) as (i & mb & Hsel & Hmb & Hk). clear H. cbv beta zeta in Hk.
-  set (seen := existsb (fun p => negb (sc_peek (fst p))) (fo_sections o)) in *.
+  set (seen := negb (ro_of s k) && existsb (fun p => negb (sc_peek (fst p))) (fo_sections o)) in *.
   set (f := if seen then mark_seen else fun m => m) in *.
   assert (Hfu : forall m, mm_uid (f m) = mm_uid m) by (intros m; unfold f; destruct seen; reflexivity).
   pose proof (map_addressed_uids uid set mb f Hfu) as Hu.
@@ -464,6 +469,50 @@ Proof.
     + cbn [r_data ok]. rewrite (all_some_map _ _ _ Ea).
       rewrite (same_uids_select mb _ Hu uid set Hmok Hf Hw). reflexivity.
   - split; [exact mark_seen_spec|]. split; [apply upd_mb_others|]. auto.
+Qed.
+
+(* ---- read-only selections (EXAMINE) ---- *)
+Lemma update_nth_ident : forall A (l : list A) i x, nth_error l i = Some x -> update_nth i (fun _ => x) l = l.
+Proof.
+  induction l as [|y l IH]; intros i x H; destruct i; cbn [update_nth nth_error] in *; try discriminate.
+  - inversion H. reflexivity.
+  - rewrite (IH _ _ H). reflexivity.
+Qed.
+
+Lemma map_addressed_ident : forall uid set mb, map_addressed uid set mb (fun m => m) = mb_msgs mb.
+Proof.
+  intros uid set mb. unfold map_addressed. transitivity (map snd (numbered mb)); [|apply numbered_snd].
+  apply map_ext. intros sm. destruct (addressed uid set mb sm); reflexivity.
+Qed.
+
+Lemma set_msgs_ident : forall mb, set_msgs (mb_msgs mb) mb = mb.
+Proof. intros [n uv nx sb ms]. reflexivity. Qed.
+
+(* RFC 3501 6.3.2 / 6.4.2: a session whose mailbox was opened with EXAMINE cannot change it.  STORE, MOVE
+   and UID EXPUNGE are refused (NO, no response code) and leave the whole state unchanged; EXPUNGE succeeds
+   without removing anything; CLOSE only drops the selection; FETCH never sets \Seen: the heap (every
+   mailbox's messages and flags), the names and the selections stay as they were. *)
+Theorem readonly_no_change : forall s k c s' r i, state_ok s ->
+  sel_of s k = Some i -> ro_of s k = true -> step s (k, c) = Some (s', r) ->
+  match c with
+  | CStore _ _ _ _ _ | CMove _ _ _ | CExpunge (Some _) => s' = s /\ r = no_plain
+  | CExpunge None => s' = s /\ r = ok []
+  | CClose => s' = set_sel s k None /\ st_heap s' = st_heap s /\ r = ok []
+  | CFetch _ _ _ => st_heap s' = st_heap s /\ st_names s' = st_names s /\ st_sel s' = st_sel s /\ r_class r = 0
+  | _ => True
+  end.
+Proof.
+  intros s k c s' r i Hok Hsel Hro H.
+  pose proof (sel_valid _ _ _ Hok Hsel) as Hlt. apply lt_nth_some in Hlt. destruct Hlt as (mb & Hmb).
+  destruct c; try exact I; unfold step, in_selected in H; rewrite Hsel, Hmb in H; try rewrite Hro in H.
+  - (* CLOSE *) inversion H. split; [reflexivity|]. split; reflexivity.
+  - (* STORE *) inversion H. split; reflexivity.
+  - (* MOVE *) inversion H. split; reflexivity.
+  - (* EXPUNGE *) destruct uids; inversion H; split; reflexivity.
+  - (* FETCH *) cbn [negb andb] in H. cbv zeta in H. rewrite map_addressed_ident, set_msgs_ident in H.
+    destruct (all_some _) as [data|] in H; [|discriminate]. inversion H.
+    unfold upd_mb, with_heap. cbn [st_heap st_names st_sel r_class ok].
+    rewrite (update_nth_ident _ _ _ _ Hmb). repeat split; reflexivity.
 Qed.
 
 Lemma fetch_sections_In : forall buf l secs, fetch_sections buf l = Some secs ->
@@ -612,10 +661,10 @@ Proof.
   - (* UNSELECT *) destruct (in_selected_cases _ _ _ _ _ Hs) as [->|(id & mb & Emb & Hk)]; [exact H|].
     same_state Hk H.
   - (* CLOSE *) destruct (in_selected_cases _ _ _ _ _ Hs) as [->|(id & mb & Emb & Hk)]; [exact H|].
-    inversion Hk; subst. heap_goal. apply heap_ok_update; [exact H|].
+    destruct (ro_of s k); [same_state Hk H|]. inversion Hk; subst. heap_goal. apply heap_ok_update; [exact H|].
     intros mb0 _ Hmb0. apply expunge_mb_ok. exact Hmb0.
   - (* STORE *) destruct (in_selected_cases _ _ _ _ _ Hs) as [->|(id & mb & Emb & Hk)]; [exact H|].
-    cbv beta zeta in Hk. inversion Hk; subst. heap_goal. apply heap_ok_update; [exact H|].
+    cbv beta zeta in Hk. destruct (ro_of s k); [same_state Hk H|]. inversion Hk; subst. heap_goal. apply heap_ok_update; [exact H|].
     intros _ _ _. apply map_addressed_ok; [exact (H id mb Emb)|].
     intros m Hm. destruct op; cbn [store_flags set_flags mm_flags].
     + apply flags_add_ok. apply flag_list_ok_nil.
@@ -629,7 +678,7 @@ Proof.
     destruct (copy_all dmb (map snd (select_addressed uid set mb))) as [dmb' du]. cbn [fst] in Hc.
     inversion Hk; subst. heap_goal. apply heap_ok_update; [exact H|]. intros _ _ _. exact Hc.
   - (* MOVE *) destruct (in_selected_cases _ _ _ _ _ Hs) as [->|(id & mb & Emb & Hk)]; [exact H|].
-    cbv beta in Hk. destruct (lookup _ _) as [did|]; [|same_state Hk H].
+    cbv beta in Hk. destruct (ro_of s k); [same_state Hk H|]. destruct (lookup _ _) as [did|]; [|same_state Hk H].
     destruct (Nat.eqb did id); [same_state Hk H|].
     destruct (nth_error (st_heap s) did) as [dmb|] eqn:Ed; [|same_state Hk H].
     pose proof (copy_all_ok (map snd (select_addressed uid set mb)) dmb (H did dmb Ed)) as Hc.
@@ -640,7 +689,7 @@ Proof.
       intros m Hm. apply in_map_iff in Hm as ([q m0] & E & Hin). cbn [snd] in E. subst m0.
       apply filter_In in Hin as [Hin _]. exact (numbered_In_msg _ _ _ Hin).
   - (* EXPUNGE *) destruct (in_selected_cases _ _ _ _ _ Hs) as [->|(id & mb & Emb & Hk)]; [exact H|].
-    inversion Hk; subst. heap_goal. apply heap_ok_update; [exact H|].
+    destruct (ro_of s k); [same_state Hk H|]. inversion Hk; subst. heap_goal. apply heap_ok_update; [exact H|].
     intros mb0 _ Hmb0. apply expunge_mb_ok. exact Hmb0.
   - (* SEARCH *) destruct (in_selected_cases _ _ _ _ _ Hs) as [->|(id & mb & Emb & Hk)]; [exact H|].
     same_state Hk H.
@@ -648,7 +697,7 @@ Proof.
     cbv beta zeta in Hk. destruct (all_some _) as [data|] in Hk; [|discriminate].
     inversion Hk; subst. heap_goal. apply heap_ok_update; [exact H|].
     intros _ _ _. apply map_addressed_ok; [exact (H id mb Emb)|].
-    intros m Hm. destruct (existsb _ _); [|exact Hm].
+    intros m Hm. destruct (_ && _); [|exact Hm].
     unfold mark_seen. cbn [set_flags mm_flags]. apply flag_insert_ok; [reflexivity|exact Hm].
   - (* NOOP *) same_state Hs H.
 Qed.
